@@ -39,16 +39,20 @@ LEMMAS = {}
 ALLOWED_PANIC = {
     ("src/checks/recursion_variable.rs", "visit_fun_info"): (1, "function_stack.pop().unwrap(): pushed at the start of the same visit"),
     ("src/checks/type_checker.rs", "set"): (1, "blocks.last_mut().expect(..): the block stack starts non-empty and push/pop are paired"),
-    ("src/checks/type_checker.rs", "arity_diagnostics"): (1, "arguments.last().unwrap(): on the branch with more arguments than parameters"),
+    ("src/checks/type_checker.rs", "arity_diagnostics"): (2, "arguments.last().unwrap(): on the branch with more arguments than parameters; arguments[expected_args.len()]: on the branch with more arguments than parameters"),
     ("src/checks/type_checker.rs", "infer_float_binop"): (1, "unreachable!() for operators other than the float operators it is called for"),
     ("src/checks/type_checker.rs", "get_var"): (1, "get_namespace(..).expect(..): the checked file's namespace is created before checking"),
-    ("src/checks/unused_defs.rs", "transitive_closure"): (1, "reachable.get_mut(def_id).unwrap(): the key was inserted by the loop above"),
+    ("src/checks/unused_defs.rs", "transitive_closure"): (2, "reachable.get_mut(def_id).unwrap(): the key was inserted by the loop above; reachable[def_id]: def_id is a key of the clone the loop iterates over"),
     ("src/checks/unused_vars.rs", "mark_used"): (1, "panic! on an unbound variable: called only for names found in a scope"),
     ("src/checks/unused_vars.rs", "add_binding"): (1, "scopes.last_mut().expect(..): scope stack non-empty"),
     ("src/checks/unused_vars.rs", "pop_scope"): (1, "scopes.pop().expect(..): push/pop paired"),
     ("src/checks/unused_vars.rs", "visit_fun_info"): (1, "type_param_info.pop().unwrap(): pushed at the start of the same visit"),
     ("src/format.rs", "apply_span_edits"): (1, "result.replace_range(edit.start_offset..edit.end_offset, ..): the edits are token / comment spans of the text they are applied to, sorted and applied back to front (the span helpers are under contract in units fmtedits / fmtspans)"),
     ("src/format.rs", "wrap_long_signatures"): (1, "result.replace_range(start..end, ..): start / end are positions of the signature's tokens in the same text"),
+    ("src/parser.rs", "unescape_string"): (1, "chars[i] inside `while i < chars.len()`"),
+    ("src/format.rs", "fix_space_before_block"): (1, "before.as_bytes()[before.len() - 1]: `before` is not empty (open_start > 0 is tested above)"),
+    ("src/format.rs", "normalize_blank_lines"): (3, "lines[i] inside `while i < lines.len()` / after `i < lines.len() &&`"),
+    ("src/format.rs", "fix_type_annotation_spacing"): (3, "tokens[i + 1] / tokens[i - 1] after `i + 1 < tokens.len()` / `i > 0`"),
     ("src/parser.rs", "require_a_token"): (1, "prev_token.expect(..): reached only after at least one token was consumed"),
     ("src/parser.rs", "check_required_token"): (1, "prev_token.expect(..): as above"),
     ("src/parser.rs", "parse_float"): (1, "text.parse::<f64>().unwrap() on a token matched by the float regex"),
